@@ -1,1 +1,392 @@
-PROPERTY='C03'
+"""C03 -- concurrent LRI/LRU operations are atomic and never corrupt the cache.
+
+Engine: threadsim.  2-4 logical threads (real threads, exactly one runnable) run
+programs of cache operations on one shared LRI/LRU; the simulator pre-empts at
+every bytecode of boltons/cacheutils.py and at every lock operation, chooses the
+interleaving from the case's schedule, and judges the recorded history by
+linearizability (including final contents and eviction order) against
+models/lru_model.py.
+"""
+from simkit import core, shrinkers
+from simkit.core import ddmin
+from engines import threadsim
+from models import lru_model as M
+from models import linearize
+from . import cachelib as L
+
+PROPERTY = 'C03'
+ENGINE = 'threadsim'
+LEVEL = 'exploration'
+SOURCE_FILES = ['boltons/cacheutils.py']
+SIM_TIME_UNIT = 'scheduler steps (one per pre-emption point: bytecode of cacheutils, lock operation, op invoke/return)'
+SHRINK_BUDGET = 30000
+TIERS = {
+    'quick': {'budget_s': 30, 'min_runs': 6000, 'block': 100, 'fixed_block': 400},
+    'thorough': {'budget_s': 900, 'min_runs': 400000, 'block': 400, 'fixed_block': 400},
+}
+RULE = ('A case is (class, max_size 1-4, on_miss, preload, 2-4 thread programs of 1-5 operations each with '
+        'unique written values, schedule policy + seed); the schedule policy is uniform random switching '
+        '(p in 0.02..0.5), PCT priorities (d=1..3), pre-emption bounded (1-2 forced switches) or sequential. '
+        'Floor: for every ordered pair of 17 operations on a full 2-slot cache, both classes, thread A is '
+        'pre-empted once at every one of its yield points and thread B runs in between. Non-trivial: at least '
+        'one context switch was taken while some thread was inside an operation (between its invoke and '
+        'return). distinct = distinct (programs, switch signature) hashes, switch signature = sequence of '
+        '(from, code name, bytecode offset, to).')
+COMPONENTS = {'real': ['boltons.cacheutils.LRI', 'boltons.cacheutils.LRU', 'CPython dict', 'real threading.Thread per logical thread'],
+              'stub': ['the lock (engines.threadsim.SimRLock)', 'the thread scheduler (baton passing; exactly one thread runnable)',
+                       'on_miss callbacks']}
+ASSUMPTIONS = ['CPython 3.12 with the GIL: C-level dict operations on int/str/tuple keys are atomic; pre-emption is possible between any two bytecodes of cacheutils.py (a superset of where the eval loop really switches)',
+               'hit/miss/soft-miss counters are not part of the concurrent specification (get() counts outside the lock)',
+               'popitem may return any present pair; copy() must equal contents and order at its linearisation point',
+               'known finding C03-F1: lock-free inherited dict readers (len, in, dict(), list()) may observe a prefix of the dict-level steps of one in-flight locked operation; everything else is strict',
+               'histories are capped at 16 operations so the linearizability search stays exact']
+
+
+def setup(root):
+    L.setup(root)
+
+
+# ------------------------------------------------------------------------------
+# generation
+
+def _gen_sched(rng, nops):
+    horizon = rng.choice([60, 150, 400]) * max(1, nops // 2)
+    r = rng.random()
+    seed = rng.getrandbits(32)
+    if r < 0.45:
+        return {'kind': 'random', 'seed': seed, 'p': rng.choice([0.02, 0.05, 0.1, 0.3, 0.5])}
+    if r < 0.65:
+        return {'kind': 'pct', 'seed': seed, 'd': rng.choice([1, 2, 3]), 'horizon': horizon}
+    if r < 0.95:
+        return {'kind': 'bounded', 'seed': seed, 'k': rng.choice([1, 2, 3]), 'horizon': horizon}
+    return {'kind': 'sequential', 'seed': seed}
+
+
+def _gen_ops(rng, keys, n, tag):
+    ops = []
+    for i in range(n):
+        r = rng.random()
+        k = rng.choice(keys)
+        v = '%s.%d' % (tag, i)
+        if r < 0.28:
+            ops.append(['set', k, v])
+        elif r < 0.42:
+            ops.append(['get', k])
+        elif r < 0.48:
+            ops.append(['getd', k, 'dflt'])
+        elif r < 0.54:
+            ops.append(['setdefault', k, v])
+        elif r < 0.60:
+            ops.append(['del', k])
+        elif r < 0.64:
+            ops.append(['pop', k])
+        elif r < 0.66:
+            ops.append(['popd', k, 'dflt'])
+        elif r < 0.69:
+            ops.append(['popitem'])
+        elif r < 0.71:
+            ops.append(['clear'])
+        elif r < 0.77:
+            ops.append(['update', [[rng.choice(keys), '%s.%d' % (v, j)] for j in range(rng.randint(1, 3))],
+                        rng.choice(['dict', 'pairs'])])
+        elif r < 0.80:
+            ops.append(['ior', [[rng.choice(keys), '%s.%d' % (v, j)] for j in range(rng.randint(1, 2))]])
+        elif r < 0.85:
+            ops.append(['in', k])
+        elif r < 0.89:
+            ops.append(['len'])
+        elif r < 0.92:
+            ops.append(['dict'])
+        elif r < 0.94:
+            ops.append(['keys'])
+        elif r < 0.96:
+            ops.append(['eq', [[rng.choice(keys), 'x']]])
+        else:
+            ops.append(['copy'])
+    return ops
+
+
+def gen_case(rng, tier):
+    cls = rng.choice(['LRI', 'LRU'])
+    max_size = rng.choice([1, 2, 2, 3, 3, 4])
+    keys = rng.choice([[1, 2, 3, 4, 5], ['a', 'b', 'c', 'd', 'e']])[:rng.randint(2, 5)]
+    on_miss = rng.choice(['none', 'none', 'none', 'pure', 'reent_set'])
+    nthreads = rng.choice([2, 2, 2, 3, 3, 4])
+    threads = []
+    budget = 14
+    for t in range(nthreads):
+        n = min(rng.randint(1, 5), max(1, budget - (nthreads - t - 1)))
+        budget -= n
+        threads.append(_gen_ops(rng, keys, n, 't%d' % t))
+    npre = rng.randint(0, max_size)
+    preload = [[keys[i % len(keys)], 'p%d' % i] for i in range(npre)]
+    nops = sum(len(t) for t in threads)
+    return {'cls': cls, 'max_size': max_size, 'on_miss': on_miss, 'preload': preload,
+            'threads': threads, 'sched': _gen_sched(rng, nops)}
+
+
+SWEEP_OPS = [
+    ['set', 1, 'A'], ['set', 3, 'B'], ['get', 1], ['get', 3], ['getd', 3, 'dflt'], ['setdefault', 3, 'C'],
+    ['del', 1], ['pop', 2], ['popitem'], ['clear'], ['update', [[3, 'D'], [1, 'E']], 'pairs'],
+    ['ior', [[3, 'F']]], ['in', 1], ['len'], ['dict'], ['eq', [[1, 'p0'], [2, 'p1']]], ['copy'],
+]
+_FIXED = {}
+
+
+def _retag(op, tag):
+    op = list(op)
+    if op[0] in ('set', 'setdefault'):
+        op[2] = tag + op[2]
+    elif op[0] in ('update', 'ior'):
+        op[1] = [[k, tag + v] for k, v in op[1]]
+    return op
+
+
+def _steps_alone(cls, on_miss, op):
+    case = {'cls': cls, 'max_size': 2, 'on_miss': on_miss, 'preload': [[1, 'p0'], [2, 'p1']],
+            'threads': [[op]], 'sched': {'kind': 'sequential', 'seed': 0}}
+    return run_case(case).steps
+
+
+def fixed_cases(tier):
+    """Pre-emption-point sweep: the schedule analogue of crash-point enumeration."""
+    if tier in _FIXED:
+        return _FIXED[tier]
+    cases = []
+    for cls in ('LRI', 'LRU'):
+        for on_miss in ('none', 'pure'):
+            for ia, a in enumerate(SWEEP_OPS):
+                if on_miss == 'pure' and a[0] not in ('get', 'getd', 'setdefault'):
+                    continue
+                a1 = _retag(a, 'a')
+                n = _steps_alone(cls, on_miss, a1)
+                for ib, b in enumerate(SWEEP_OPS):
+                    if on_miss == 'pure' and tier == 'quick' and ib % 2:
+                        continue
+                    b1 = _retag(b, 'b')
+                    for k in range(1, n + 1):
+                        cases.append({'cls': cls, 'max_size': 2, 'on_miss': on_miss,
+                                      'preload': [[1, 'p0'], [2, 'p1']], 'threads': [[a1], [b1]],
+                                      'sched': {'kind': 'explicit', 'switches': [[k, 1]]}})
+    _FIXED[tier] = cases
+    return cases
+
+
+def case_size(case):
+    return sum(len(t) for t in case['threads']) + len(case['preload']) + len(case['sched'].get('switches', []))
+
+
+def describe_case(case):
+    return case
+
+
+# ------------------------------------------------------------------------------
+# execution
+
+def run_case(case):
+    out = core.Outcome()
+    log = core.EventLog(keep=False)
+    nthreads = len(case['threads'])
+    policy = threadsim.make_policy(case['sched'], nthreads)
+    sched = threadsim.Scheduler(policy, log, step_cap=case.get('step_cap', 20000))
+    ctx = L.Ctx(sched)
+    spec = M.Spec(case['cls'], case['max_size'], case.get('on_miss', 'none'))
+    c = L.make_cache(case, ctx, sched)
+    state = spec.initial()
+    for k, v in case['preload']:
+        c[L.dk(k)] = L.dk(v)
+        state = M.apply(spec, state, ('set', L.dk(k), L.dk(v)))[0][1]
+    hist = [[] for _ in range(nthreads)]
+    in_op = [0]
+
+    def program(tid, ops):
+        def run():
+            for i, op in enumerate(ops):
+                inv = sched.yield_point(('invoke', tid, i))
+                in_op[0] += 1
+                rec = {'op': L.model_op(op), 'inv': inv, 'ret': None, 'out': None, 'jop': op}
+                hist[tid].append(rec)
+                real, post = L.exec_op(c, op, ctx)
+                in_op[0] -= 1
+                rec['ret'] = sched.yield_point(('return', tid, i))
+                if post is not None:
+                    real = ('ok', post())
+                rec['out'] = real
+                log.add('ret', tid, i, repr(real))
+        return run
+
+    for tid, ops in enumerate(case['threads']):
+        sched.spawn(program(tid, ops))
+    reason = sched.run()
+    out.steps = sched.step
+    out.sim_time = float(sched.step)
+    out.extra['switches'] = [[0, sched.first]] + [[s, to] for s, _f, to, _w in sched.switches]
+    if sched.contended:
+        out.probe('lock_contended', sched.contended)
+    if sched.switch_in_traced:
+        out.probe('switch_at_bytecode_inside_cacheutils', sched.switch_in_traced)
+    mid = [1 for s, f, to, w in sched.switches if w[0] in ('op', 'lock', 'on_miss')]
+    spl = [1 for s, f, to, w in sched.switches if w[0] == 'op' and w[1].endswith('_ll')]
+    if spl:
+        out.probe('switch_inside_ring_splice', len(spl))
+    if mid:
+        sig = [(f, w[1] if len(w) > 1 else '', w[2] if len(w) > 2 else 0, to) for s, f, to, w in sched.switches]
+        out.nontrivial.append(core.h64([case['cls'], case['max_size'], case['threads'], sig]))
+
+    if reason == 'deadlock':
+        out.fail('deadlock', sched.step, 'no runnable thread: %s' % _blocked(sched))
+    elif reason == 'no-progress':
+        out.fail('no-progress', sched.step, 'more than %d scheduler steps' % sched.step_cap)
+    if out.violation is None:
+        _judge(case, spec, state, hist, c, out)
+    out.digest = log.digest()
+    return out
+
+
+def _blocked(sched):
+    return ', '.join('T%d %s' % (t.tid, 'done' if t.done else ('blocked' if t.blocked_on is not None else 'ready'))
+                     for t in sched.threads)
+
+
+def _judge(case, spec, init_state, hist, c, out):
+    ms = case['max_size']
+    nrec = 0
+    for tid, recs in enumerate(hist):
+        for i, r in enumerate(recs):
+            nrec += 1
+            if r['out'] is None:
+                out.fail('harness-error', i, 'operation without outcome')
+                return
+            name = r['op'][0]
+            if r['out'][0] == 'exc':
+                if r['out'][1] not in M.POSSIBLE_EXC.get(name, ()):
+                    out.fail('impossible-exception', i,
+                             'thread %d op %r raised %s, which no sequential execution can raise'
+                             % (tid, r['jop'], r['out'][1]), exc=r['out'][1])
+                    return
+            elif name == 'len' and r['out'][1] > ms:
+                out.fail('capacity-exceeded', i, 'thread %d observed len == %d > max_size %d' % (tid, r['out'][1], ms))
+                return
+            elif name == 'dict' and len(r['out'][1]) > ms:
+                out.fail('capacity-exceeded', i, 'thread %d observed %d items > max_size %d' % (tid, len(r['out'][1]), ms))
+                return
+    # the cache must still be usable: probe contents and eviction order via the public API
+    try:
+        with threadsim.OpcodeBudget(400000):
+            pr = L.probe(c, ms)
+    except threadsim.OpcodeBudget.Exceeded:
+        out.fail('cache-unusable', 0, 'probing the cache after the threads finished did not terminate')
+        return
+    if pr['len'] > ms or len(pr['items']) > ms or pr['over_capacity']:
+        out.fail('capacity-exceeded', 0, 'after all threads finished the cache holds %d items > max_size %d'
+                 % (max(pr['len'], len(pr['items'])), ms))
+        return
+    if pr['error'] or pr['left'] or pr['len'] != len(pr['items']):
+        out.fail('cache-unusable', 0,
+                 'after all threads finished: probe error=%r, keys that never get evicted=%r, len=%d, items=%r, order=%r'
+                 % (pr['error'], pr['left'], pr['len'], pr['items'], pr['order']))
+        return
+    if nrec > 16:
+        out.probe('history_too_long_for_linearizability')
+        return
+    threads = [[{'op': r['op'], 'inv': r['inv'], 'ret': r['ret'], 'out': r['out']} for r in recs] for recs in hist]
+    verdict = linearize.classify(spec, threads, pr['items'], pr['order'], init_state)
+    if verdict == 'strict':
+        return
+    if verdict == 'unknown':
+        out.probe('linearizability_search_exhausted')
+        return
+    if verdict == 'relaxed':
+        out.known.append('C03-F1')
+        out.probe('lockfree_read_saw_transient_state')
+        return
+    out.fail('non-linearizable', 0, 'no sequential order explains this history: %s; final contents %r, eviction order %r'
+             % (_fmt_hist(hist), pr['items'], pr['order']))
+
+
+def _fmt_hist(hist):
+    parts = []
+    for tid, recs in enumerate(hist):
+        parts.append('T%d[' % tid + '; '.join('%r@%s-%s -> %r' % (r['jop'], r['inv'], r['ret'], r['out']) for r in recs) + ']')
+    return ' '.join(parts)
+
+
+# ------------------------------------------------------------------------------
+# minimisation: programs first (re-searching schedules for each candidate), then the
+# explicit switch list.
+
+def _sched_candidates(case):
+    yield case['sched']
+    nops = sum(len(t) for t in case['threads'])
+    for s in range(24):
+        yield {'kind': 'random', 'seed': s, 'p': [0.3, 0.1, 0.5][s % 3]}
+    for s in range(24):
+        yield {'kind': 'bounded', 'seed': s, 'k': 1 + s % 2, 'horizon': 60 * max(1, nops)}
+
+
+def shrink(case, fails):
+    best = [case]
+
+    def fails_some_schedule(c):
+        for sc in _sched_candidates(c):
+            c2 = dict(c)
+            c2['sched'] = sc
+            if fails(c2):
+                best[0] = c2
+                return True
+        return False
+
+    def with_threads(ths):
+        c = dict(best[0])
+        c['threads'] = [t for t in ths if t]
+        return c
+
+    # 1. drop whole threads
+    ths = list(best[0]['threads'])
+    idx = ddmin(list(range(len(ths))),
+                lambda keep: len(keep) >= 1 and fails_some_schedule(with_threads([ths[i] for i in keep])))
+    # 2. drop operations inside each thread
+    for t in range(len(best[0]['threads'])):
+        cur = best[0]['threads']
+        if t >= len(cur):
+            break
+
+        def test(sub, t=t):
+            ths = list(best[0]['threads'])
+            if t >= len(ths):
+                return False
+            ths[t] = sub
+            if not sub:
+                return False
+            return fails_some_schedule(with_threads(ths))
+        ddmin(list(cur[t]), test)
+    # 3. preload, on_miss, max_size
+    def test_pre(sub):
+        c = dict(best[0])
+        c['preload'] = sub
+        return fails_some_schedule(c)
+    ddmin(list(best[0]['preload']), test_pre)
+    for upd in ({'on_miss': 'none'},):
+        c = dict(best[0])
+        c.update(upd)
+        if c != best[0]:
+            fails_some_schedule(c)
+    # 4. explicit schedule, then delete context switches one at a time
+    import checks.c03 as me
+    o = me.run_case(best[0])
+    sw = o.extra.get('switches')
+    if sw is not None:
+        c = dict(best[0])
+        c['sched'] = {'kind': 'explicit', 'switches': sw}
+        if fails(c):
+            best[0] = c
+
+            def test_sw(sub):
+                c2 = dict(best[0])
+                c2['sched'] = {'kind': 'explicit', 'switches': sub}
+                if fails(c2):
+                    best[0] = c2
+                    return True
+                return False
+            ddmin(list(sw), test_sw)
+    return best[0]
